@@ -32,6 +32,7 @@ def write_evidence(prop, tier, seed, merged, verdict, extra):
         "hangs_confirmed": merged.get("hangs_confirmed", 0),
         "slow_or_suspect_cases": merged.get("suspect_cases", [])[:10],
         "worker_crashes": merged.get("worker_crashes", 0),
+        "shards_abandoned_after_3_confirmed_hangs": merged.get("shards_abandoned", 0),
         "verdict": verdict,
         "repo": env.REPO,
     }
